@@ -72,7 +72,7 @@ try:
             note("suite_log", out3[-2500:])
     # our checks against the changed tree
     res = {}
-    for p in props:
+    for p in ([] if "--no-checks" in sys.argv else props):
         rc4, out4 = sh("VERIF_REPO=%s VERIF_EVIDENCE_DIR=/verif/.work/ev-seed ./check %s" % (wt, p), cwd=os.environ.get("SEED_VERIF", "/verif"), timeout=3000)
         line = [l for l in out4.splitlines() if l.startswith("VIOLATION")]
         res[p] = {"exit": rc4, "line": line[0] if line else "", "how": ("oracle-violation" if line and "no-failing-input-found" not in line[0] else ("proof-or-correspondence-broken" if line else "missed"))}
